@@ -517,6 +517,19 @@ def readers_take_every_number(prog: Program, rep, RID: str):
             for t, pol in enclosing_tests(fd, c):
                 if norm(t) == f"hasattr({v}, 'as_integer_ratio')" and not pol:
                     excl = True
+            # ... or behind an earlier `if hasattr(v, 'as_integer_ratio'): return ...` of an enclosing block
+            cur = c
+            while id(cur) in par and not excl:
+                p_ = par[id(cur)]
+                for fld in ("body", "orelse"):
+                    blk = getattr(p_, fld, None)
+                    if isinstance(blk, list) and any(cur is s_ for s_ in blk):
+                        for sib in blk:
+                            if sib is cur:
+                                break
+                            if isinstance(sib, ast.If) and norm(sib.test) == f"hasattr({v}, 'as_integer_ratio')" and sib.body and isinstance(sib.body[-1], (ast.Return, ast.Raise)):
+                                excl = True
+                cur = p_
             if excl:
                 rep.ok(RID, key, f"`Fraction({v})` only for values without as_integer_ratio()", f.loc(c))
             else:
